@@ -197,6 +197,9 @@ def build_electric_component(d):
     if cls == "bad_pti":         # typed PTI/PTO system but not a PTIPTO instance
         return ElectricComponent(type_=TypeComponent.PTI_PTO_SYSTEM, name=name, rated_power=rated, eff_curve=eff,
                                  power_type=TypePower.PTI_PTO, switchboard_id=swb)
+    if cls == "bad_pti_load":    # typed PTI/PTO system, not a PTIPTO instance, and declared a consumer
+        return ElectricComponent(type_=TypeComponent.PTI_PTO_SYSTEM, name=name, rated_power=rated, eff_curve=eff,
+                                 power_type=TypePower.POWER_CONSUMER, switchboard_id=swb)
     if cls == "load":
         return ElectricComponent(type_=TypeComponent.OTHER_LOAD, name=name, rated_power=rated, eff_curve=eff,
                                  power_type=TypePower.POWER_CONSUMER, switchboard_id=swb)
@@ -477,7 +480,8 @@ def apply_mechanical_inputs(sysm, objs, plant, inp):
             sysm.set_status_main_engine_for_name_shaft_line_id(d["name"], d["line"], np.array(ci["status"], dtype=bool))
         elif d["cls"] == "ptipto":
             arr = np.array([float(x) for x in ci["shaft"]], dtype=float)
-            o.status = np.ones(n, dtype=bool)
+            # the machine's own on/off series: the shaft balance does not read it (the electric side uses it for load sharing only)
+            o.status = np.array(ci["pti_status"], dtype=bool) if ci.get("pti_status") else np.ones(n, dtype=bool)
             if ci["set"] == "by_output":
                 sysm.set_power_input_pti_pto_by_power_output_value_for_name_shaft_line_id(d["name"], d["line"], arr)
             else:
